@@ -368,9 +368,23 @@ def c05FailX (c : Cfg) (s : SpecSt) (o : Obs) : Option String :=
       (reenableFail c s o).map fun cls => "flood-failed-peer-not-offered-again/" ++ cls
     else none
 
+/-- `NoDup` inside one event: the algorithm does not pick two convergence senders of one peer (one endpoint ID)
+for one bundle in one choice — the second one would be a second transmission to a peer that is being served. -/
+def dupSameEventFail (c : Cfg) (o : Obs) : Option String :=
+  let ch := chosen c o.outs
+  let rec go : List (Peer × Bundle × Bool) → Option String
+    | [] => none
+    | x :: rest =>
+      if rest.any (fun y => y.1.eid == x.1.eid && y.2.1.tag == x.2.1.tag && y.2.1.seq == x.2.1.seq &&
+          y.1.addr != x.1.addr)
+      then some "c13-sent-twice-same-event-two-senders-of-one-peer"
+      else go rest
+  go ch
+
 def c13Fail (c : Cfg) (s : SpecSt) (o : Obs) : Option String :=
   (returnFail c o).orElse fun _ =>
   (dupFail c s o).orElse fun _ =>
+  (dupSameEventFail c o).orElse fun _ =>
   (reenableFail c s o).orElse fun _ =>
   (sprayFail c s o).orElse fun _ => restartFail s o
 
